@@ -233,6 +233,24 @@ func Main(property string, scenarios []Scenario) int {
 			os.Exit(0)
 		}
 	}()
+	curScenario := ""
+	vrt.StuckHook = func(site, stack string) {
+		if len(stack) > 3000 {
+			stack = stack[:3000]
+		}
+		res.Violations = append(res.Violations, Violation{Scenario: curScenario, Key: property + "|busy-loop|" + site,
+			Detail: "a goroutine of the code under test ran for a minute without reaching any synchronisation, channel, timer or network operation (a loop that never blocks): " + stack})
+		res.Caps = append(res.Caps, "aborted after a busy loop in "+curScenario)
+		res.States, res.Outcomes = len(states), len(outcomes)
+		res.WallS = time.Since(start).Seconds()
+		b, _ := json.Marshal(res)
+		if out := os.Getenv("VERIF_OUT"); out != "" {
+			os.WriteFile(out, b, 0644)
+		} else {
+			fmt.Println(string(b))
+		}
+		os.Exit(0)
+	}
 	for i, sc := range scenarios {
 		split := sc.Run == nil && sc.Opt.SplitDepth > 0
 		if (!split && i%nshard != shard) || res.Internal != "" {
@@ -265,6 +283,7 @@ func Main(property string, scenarios []Scenario) int {
 			continue
 		}
 		var st vrt.Stats
+		curScenario = sc.Name
 		opt := sc.Opt
 		opt.Name = sc.Name
 		opt.Deadline = deadline
